@@ -8,3 +8,6 @@ def run(chk):
     N.run_driver(chk, N.model_sequences(chk, 4000 if thorough else 600, foreign_offset=4), "node-tlc-state-cover")
     N.run_driver(chk, N.random_behaviours(chk.rng, 3000 if thorough else 300, "c01"), "node-random-store-read")
     chk.assumptions += N.ASSUME
+
+
+from replaykit import replay  # noqa: E402,F401
